@@ -109,6 +109,11 @@ func derivesFrom(v ssa.Value, target func(ssa.Value) bool) bool {
 			return true
 		}
 		switch x := v.(type) {
+		case *ssa.Parameter:
+			// a function with exactly one call site: the parameter IS the argument of that call
+			if arg, ok := paramBinding[x]; ok {
+				return walk(arg, d+1)
+			}
 		case *ssa.Phi:
 			for _, e := range x.Edges {
 				if walk(e, d+1) {
@@ -341,4 +346,55 @@ func allSources(v ssa.Value, pred func(ssa.Value) bool) bool {
 		return false
 	}
 	return walk(v)
+}
+
+// paramBinding maps the parameters of repo functions that have exactly one (static, synchronous or deferred) call site
+// to the arguments of that call, so that value flow can be followed into extracted helpers.
+var paramBinding = map[*ssa.Parameter]ssa.Value{}
+
+func (c *Ctx) initParamBinding() {
+	g := c.CG()
+	for fn, sites := range g.callers {
+		if len(sites) != 1 || len(fn.Blocks) == 0 || fn.Parent() != nil {
+			continue
+		}
+		call, ok := sites[0].Instr.(*ssa.Call)
+		if !ok || call.Common().StaticCallee() != fn {
+			continue
+		}
+		args := call.Common().Args
+		if len(args) != len(fn.Params) {
+			continue
+		}
+		for i, p := range fn.Params {
+			paramBinding[p] = args[i]
+		}
+	}
+}
+
+// singleSiteHelpers: same-package functions called (statically) from fn that have no other call site, transitively (depth 2).
+func (c *Ctx) singleSiteHelpers(fn *ssa.Function) []*ssa.Function {
+	g := c.CG()
+	var out []*ssa.Function
+	seen := map[*ssa.Function]bool{fn: true}
+	var visit func(f *ssa.Function, d int)
+	visit = func(f *ssa.Function, d int) {
+		eachInstr(f, func(r instrRef) {
+			call, ok := r.I.(*ssa.Call)
+			if !ok {
+				return
+			}
+			h := call.Common().StaticCallee()
+			if h == nil || seen[h] || h.Pkg != fn.Pkg || len(h.Blocks) == 0 || len(g.callers[h]) != 1 {
+				return
+			}
+			seen[h] = true
+			out = append(out, h)
+			if d < 2 {
+				visit(h, d+1)
+			}
+		})
+	}
+	visit(fn, 1)
+	return out
 }
